@@ -106,42 +106,56 @@ def run(ctx):
     breaks = [n for n in g.nodes if n.kind == "stmt" and isinstance(n.stmt, ast.Break) and n.id in body_nodes and _innermost_loop(md, n.stmt) is L.stmt]
     conts = [n for n in g.nodes if n.kind == "stmt" and isinstance(n.stmt, ast.Continue) and _innermost_loop(md, n.stmt) is L.stmt]
     ctx.check(len(breaks) >= 1, "R2", md, L.stmt, f"{CLS}.run", "break", "the loop can stop before the cap", "the optimiser never stops before the cap")
+    # interface names by position, not by spelling: run returns (max force, energy change); onestep yields (force, energy)
+    _rets = [n for n in g.nodes if n.kind == "stmt" and isinstance(n.stmt, ast.Return) and isinstance(n.stmt.value, ast.Tuple) and len(n.stmt.value.elts) == 2
+             and all(isinstance(e, ast.Name) for e in n.stmt.value.elts)]
+    if not _rets:
+        raise AnalysisError("SD run(): no `return <max force>, <energy change>` found")
+    FE, EE = (e.id for e in _rets[0].stmt.value.elts)
+    _steps = [n for n in g.nodes if n.kind == "stmt" and isinstance(n.stmt, ast.Assign) and any(callee_attr(c) == "onestep" for c in calls_in(n.stmt))
+              and isinstance(n.stmt.targets[0], ast.Tuple) and len(n.stmt.targets[0].elts) == 2 and all(isinstance(e, ast.Name) for e in n.stmt.targets[0].elts)]
+    if not _steps:
+        raise AnalysisError("SD run(): `<force>, <energy> = self.onestep(...)` not found")
+    FORCE, LNEW = (e.id for e in _steps[0].stmt.targets[0].elts)
     defs = local_defs(rn)
-    fe = defs.get("force_err", [])
-    ok_fe = len(fe) == 1 and norm(fe[0]).replace(" ", "") in ("torch.max(torch.abs(force))", "force.abs().max()", "torch.abs(force).max()")
-    ctx.check(ok_fe, "R2", md, rn, f"{CLS}.run", "force_err", "residual = largest absolute force component", f"force_err defined as {[norm(x) for x in fe]}")
+    fe = defs.get(FE, [])
+    ok_fe = len(fe) == 1 and norm(fe[0]).replace(" ", "") in (f"torch.max(torch.abs({FORCE}))", f"{FORCE}.abs().max()", f"torch.abs({FORCE}).max()")
+    ctx.check(ok_fe, "R2", md, rn, f"{CLS}.run", FE, "residual = largest absolute force component", f"{FE} defined as {[norm(x) for x in fe]}")
     for b in breaks:
         ctrl = controlling(md, b.stmt, stop=L.stmt)
         txt = [(norm(a).replace(" ", ""), p) for a, p, _ in ctrl]
-        ok = ("force_err>self.force_tol", False) in txt or ("force_err<=self.force_tol", True) in txt or ("self.force_tol>=force_err", True) in txt
+        ok = (f"{FE}>self.force_tol", False) in txt or (f"{FE}<=self.force_tol", True) in txt or (f"self.force_tol>={FE}", True) in txt
         ctx.check(ok and len(txt) == 1, "R2", md, b.stmt, f"{CLS}.run", b.stmt, "break exactly when max|force| <= force_tol",
-                  f"loop breaks under {txt} instead of `force_err <= self.force_tol`")
+                  f"loop breaks under {txt} instead of `{FE} <= self.force_tol`")
     for c in conts:
         ctrl = controlling(md, c.stmt, stop=L.stmt)
         txt = [(norm(a).replace(" ", ""), p) for a, p, _ in ctrl]
-        ctx.check(("force_err>self.force_tol", True) in txt, "R2", md, c.stmt, f"{CLS}.run", c.stmt, "continue exactly when max|force| > force_tol",
+        ctx.check((f"{FE}>self.force_tol", True) in txt, "R2", md, c.stmt, f"{CLS}.run", c.stmt, "continue exactly when max|force| > force_tol",
                   f"loop continues under {txt}")
     # force_err computed from this iteration's force, before the test
     step_nodes = [n for n in g.nodes if n.kind == "stmt" and any(callee_attr(c) == "onestep" for c in calls_in(n.stmt))]
-    fe_nodes = [n for n in g.nodes if n.kind == "stmt" and isinstance(n.stmt, ast.Assign) and norm(n.stmt.targets[0]) == "force_err"]
-    ee_nodes = [n for n in g.nodes if n.kind == "stmt" and isinstance(n.stmt, ast.Assign) and norm(n.stmt.targets[0]) == "energy_err"]
+    fe_nodes = [n for n in g.nodes if n.kind == "stmt" and isinstance(n.stmt, ast.Assign) and norm(n.stmt.targets[0]) == FE]
+    ee_nodes = [n for n in g.nodes if n.kind == "stmt" and isinstance(n.stmt, ast.Assign) and norm(n.stmt.targets[0]) == EE]
     if not (step_nodes and fe_nodes and ee_nodes):
         raise AnalysisError("SD run(): force_err / energy_err definitions not found")
     st = step_nodes[0]
     tgt = st.stmt.targets[0] if isinstance(st.stmt, ast.Assign) else None
-    ok = isinstance(tgt, ast.Tuple) and [norm(e) for e in tgt.elts] == ["force", "Lnew"]
+    ok = isinstance(tgt, ast.Tuple) and [norm(e) for e in tgt.elts] == [FORCE, LNEW]
     ctx.check(ok, "R2", md, st.stmt, f"{CLS}.run", st.stmt, "(force, Lnew) are this iteration's onestep results", "onestep results are not bound to (force, Lnew)")
     for b in breaks + conts:
-        for nn, nm in ((fe_nodes[0], "force_err"), (ee_nodes[0], "energy_err")):
+        for nn, nm in ((fe_nodes[0], FE), (ee_nodes[0], EE)):
             ctx.check(g.must_pass(st.id, b.id, {nn.id}) and b.id in g.reachable(st.id, avoid={L.id}), "R2", md, nn.stmt, f"{CLS}.run", nn.stmt,
                       f"{nm} is recomputed from the current evaluation before the stop test", f"{nm} is not recomputed between onestep and the stop test")
-    ctx.check(norm(ee_nodes[0].stmt.value).replace(" ", "") == "(Lnew-Lold).sum()/nmol", "R2", md, ee_nodes[0].stmt, f"{CLS}.run", ee_nodes[0].stmt,
+    _ev = ee_nodes[0].stmt.value
+    _others = sorted({x.id for x in ast.walk(_ev) if isinstance(x, ast.Name)} - {LNEW, "nmol", "torch"})
+    LOLD = _others[0] if len(_others) == 1 else "Lold"
+    ctx.check(norm(_ev).replace(" ", "") == f"({LNEW}-{LOLD}).sum()/nmol", "R2", md, ee_nodes[0].stmt, f"{CLS}.run", ee_nodes[0].stmt,
               "energy change = mean over molecules of Lnew - Lold", f"energy_err = `{norm(ee_nodes[0].stmt.value)}`")
-    lold = [n for n in g.nodes if n.kind == "stmt" and isinstance(n.stmt, ast.Assign) and norm(n.stmt.targets[0]) == "Lold" and n.id in body_nodes]
-    ctx.check(bool(lold) and all(norm(n.stmt.value) == "Lnew" for n in lold) and all(g.must_pass(st.id, c.id, {n.id for n in lold}) for c in conts), "R2", md,
+    lold = [n for n in g.nodes if n.kind == "stmt" and isinstance(n.stmt, ast.Assign) and norm(n.stmt.targets[0]) == LOLD and n.id in body_nodes]
+    ctx.check(bool(lold) and all(norm(n.stmt.value) == LNEW for n in lold) and all(g.must_pass(st.id, c.id, {n.id for n in lold}) for c in conts), "R2", md,
               lold[0].stmt if lold else rn, f"{CLS}.run", "Lold = Lnew", "previous energy is carried to the next iteration", "Lold is not updated on every continuing path")
     rets = [n for n in g.nodes if n.kind == "stmt" and isinstance(n.stmt, ast.Return)]
-    ok = bool(rets) and all(isinstance(r.stmt.value, ast.Tuple) and [norm(e) for e in r.stmt.value.elts] == ["force_err", "energy_err"] for r in rets)
+    ok = bool(rets) and all(isinstance(r.stmt.value, ast.Tuple) and [norm(e) for e in r.stmt.value.elts] == [FE, EE] for r in rets)
     ctx.check(ok, "R2", md, rets[0].stmt if rets else rn, f"{CLS}.run", "return", "run returns (force_err, energy_err) of the last evaluation", "run does not return (force_err, energy_err)")
     # nothing rebinds them after the loop
     late = [n for n in (fe_nodes + ee_nodes) if n.id not in body_nodes]
